@@ -492,7 +492,7 @@ private:
       Wt coeff(ntow::convert(p.first, overflow));
       variable_t y(p.second);
       if (overflow) {
-        continue;
+        return; // dropping the term would be unsound
       }
 
       if (coeff < Wt(0)) {
@@ -507,7 +507,7 @@ private:
         } else {
           Wt ymax(ntow::convert(*(y_val.number()), overflow));
           if (overflow) {
-            continue;
+            return; // dropping the term would be unsound
           }
           residual += ymax * coeff;
           oct_terms.push_back({y, ymax});
@@ -524,7 +524,7 @@ private:
         } else {
           Wt ymax(ntow::convert(*(y_val.number()), overflow));
           if (overflow) {
-            continue;
+            return; // dropping the term would be unsound
           }
           residual += ymax * coeff;
           diff_terms.push_back({y, ymax});
@@ -644,7 +644,7 @@ private:
     for (auto p : exp) {
       Wt coeff(ntow::convert(p.first, overflow));
       if (overflow) {
-        continue;
+        return; // dropping the term would be unsound
       }
       if (coeff > Wt(0)) {
         variable_t y(p.second);
@@ -662,7 +662,7 @@ private:
         } else {
           Wt ymin(ntow::convert(*(y_lb.number()), overflow));
           if (overflow) {
-            continue;
+            return; // dropping the term would be unsound
           }
           // Coeff is negative, so it's still add
           exp_ub -= ymin * coeff;
@@ -686,7 +686,7 @@ private:
         } else {
           Wt ymax(ntow::convert(*(y_ub.number()), overflow));
           if (overflow) {
-            continue;
+            return; // dropping the term would be unsound
           }
           exp_ub -= ymax * coeff;
           neg_terms.push_back({{-coeff, y}, ymax});
